@@ -7,8 +7,8 @@ Read from the source text with `ast` (never importing), through the symbolic rea
 added temporaries, reordered operands of `+`, `*`, `np.greater(sign, 0)` vs `sign > 0` vs `0 < sign` give the same
 output.  Fails closed: an anchor that is not recognised is emitted as a value that falsifies its tying theorem.
 """
-from ._symsrc import (SRCOPS_FILE, Out, Sym, affine1, as_int, canon, cmp_parts, find_def, kwarg, match, parse_expr,
-                      read_tree, safe, text)
+from ._symsrc import (SRCOPS_FILE, Out, Sym, affine1, as_int, canon, cmp_parts, find_def, func_shape, kwarg, match,
+                      parse_expr, poly, read_tree, safe, text)
 
 FN = ("polliwog", "plane", "_plane_functions.py")
 OBJ = ("polliwog", "plane", "_plane_object.py")
@@ -69,9 +69,14 @@ def generate(repo):
             c, pol = conds[0]
             if text(c, abbr) != "np.isscalar(SD)":
                 return None
-            out[pol] = text(e, abbr)
+            out[pol] = (text(e, abbr), poly(e, abbr))
         return out.get(True), out.get(False)
     tr = safe(translate, (None, None))
+    tr = ((tr[0] or (None, None)), (tr[1] or (None, None)))
+    o.poly("translatePoly", tr[0][1], "`translate_points_along_plane_normal`, single point: the returned expression as a "
+           "sum of products of atoms (SD, NORMALS as below)")
+    o.poly("translateStackedPoly", tr[1][1], "the same for a stack of points")
+    tr = (tr[0][0], tr[1][0])
     o.str("translateSrc", tr[0], "`translate_points_along_plane_normal`, single point: the returned expression, with "
           "SD = signed_distance_to_plane(points, plane_equations), NORMALS = first component of "
           "normal_and_offset_from_plane_equations(plane_equations); operands in normal order")
@@ -81,8 +86,24 @@ def generate(repo):
         r = _only_return(ftree, "signed_distance_to_plane")
         abbr = [("NORMALS", canon(parse_expr("_item(normal_and_offset_from_plane_equations(plane_equations), 0, 2)"))),
                 ("OFFSETS", canon(parse_expr("_item(normal_and_offset_from_plane_equations(plane_equations), 1, 2)")))]
-        return text(r, abbr)
-    o.str("signedDistanceSrc", safe(sdist), "`signed_distance_to_plane`: the returned expression")
+        return text(r, abbr), poly(r, abbr)
+    sdr = safe(sdist, (None, None))
+    o.poly("signedDistancePoly", sdr[1], "`signed_distance_to_plane`: the returned expression as a sum of products of atoms")
+    o.str("signedDistanceSrc", sdr[0], "`signed_distance_to_plane`: the returned expression")
+
+    def split():
+        r = _only_return(ftree, "normal_and_offset_from_plane_equations")
+        m = match("(_NA if _C else _NB, _OA if _C else _OB)", r)
+        c = cmp_parts(m["_C"])
+        return dict(cmp=c[0], lhs=text(c[1]), rhs=as_int(c[2]),
+                    stops=[as_int(match("plane_equations[:, :_N]", m["_NA"])["_N"]), as_int(match("plane_equations[:_N]", m["_NB"])["_N"])],
+                    idx=[as_int(match("plane_equations[:, _I]", m["_OA"])["_I"]), as_int(match("plane_equations[_I]", m["_OB"])["_I"])])
+    sp = safe(split) or {}
+    o.cmp("stackedEquationsCmp", sp.get("cmp"), "`normal_and_offset_from_plane_equations`: the stacked form is used when `<lhs> op n`")
+    o.str("stackedEquationsLhs", sp.get("lhs"))
+    o.int("stackedEquationsRhs", sp.get("rhs"))
+    o.ints("normalSliceStops", sp.get("stops"), "normal = `plane_equations[…, :n]` (stacked form, single form)")
+    o.ints("offsetIndices", sp.get("idx"), "offset = `plane_equations[…, i]` (stacked form, single form)")
     o.str("normalOffsetSrc", safe(lambda: text(_only_return(ftree, "normal_and_offset_from_plane_equations"))),
           "`normal_and_offset_from_plane_equations`: the returned pair")
     o.blank()
@@ -106,6 +127,41 @@ def generate(repo):
                         ("projectMethodSrc", "project_point"), ("mirrorMethodSrc", "mirror_point"),
                         ("canonicalPointSrc", "canonical_point"), ("flippedSrc", "flipped")):
         o.str(ident, safe(lambda: text(_only_return(otree, "Plane." + meth))), "`Plane.%s`: the returned expression" % meth)
+
+    def delegate(meth):
+        """`return f(points, self.equation)` -> (f, [argument texts])"""
+        r = _only_return(otree, "Plane." + meth)
+        return (text(r.func), [text(a) for a in r.args]) if not r.keywords else None
+    for ident, meth in (("signedDistanceMethod", "signed_distance"), ("projectMethod", "project_point"),
+                        ("mirrorMethod", "mirror_point")):
+        d = safe(lambda: delegate(meth), (None, None))
+        o.str(ident + "Callee", d[0], "`Plane.%s` returns `<callee>(<args>)`" % meth)
+        o.strs(ident + "Args", d[1])
+
+    def wrapper(meth):
+        """`return g(self.signed_distance(points))` -> (g, inner text)"""
+        r = _only_return(otree, "Plane." + meth)
+        return (text(r.func), text(r.args[0])) if len(r.args) == 1 and not r.keywords else None
+    for ident, meth in (("sign", "sign"), ("distance", "distance")):
+        w = safe(lambda: wrapper(meth), (None, None))
+        o.str(ident + "Wrapper", w[0], "`Plane.%s` returns `<wrapper>(<inner>)`" % meth)
+        o.str(ident + "Inner", w[1])
+    o.poly("canonicalPointPoly", safe(lambda: poly(_only_return(otree, "Plane.canonical_point"))),
+           "`Plane.canonical_point` as a sum of products of atoms")
+
+    def flipped():
+        r = _only_return(otree, "Plane.flipped")
+        if text(r.func) != "Plane" or r.args or len(r.keywords) != 2:
+            return None
+        n, p = affine1(kwarg(r, "normal")), affine1(kwarg(r, "reference_point"))
+        return n[0], text(n[1]), n[2], p[0], text(p[1]), p[2]
+    fl = safe(flipped, (None,) * 6)
+    o.int("flippedNormalCoef", fl[0], "`Plane.flipped` = `Plane(reference_point=c' * <term'> + d', normal=c * <term> + d)`")
+    o.str("flippedNormalTerm", fl[1])
+    o.int("flippedNormalConst", fl[2])
+    o.int("flippedRefCoef", fl[3])
+    o.str("flippedRefTerm", fl[4])
+    o.int("flippedRefConst", fl[5])
     o.blank()
 
     # ---- the masks
@@ -120,4 +176,14 @@ def generate(repo):
         o.str(ident + "InvLhs", safe(lambda: text(inv[1])))
         o.int(ident + "InvRhs", safe(lambda: as_int(inv[2])))
         o.str(ident + "SelectSrc", sel, "what is returned, around the mask")
+    o.blank()
+    o.shapes("functionShapes",
+             [func_shape(ftree, q) for q in ("project_point_to_plane", "mirror_point_across_plane",
+                                             "translate_points_along_plane_normal", "signed_distance_to_plane",
+                                             "normal_and_offset_from_plane_equations")] +
+             [func_shape(otree, "Plane." + q) for q in ("equation", "sign", "signed_distance", "distance", "project_point",
+                                                         "mirror_point", "canonical_point", "flipped", "points_in_front",
+                                                         "points_on_or_in_front")],
+             "for every function read above: (name, decorators, parameters with defaults, statements the symbolic reader "
+             "does not interpret, other bindings of the name in its scope)")
     return [SRCOPS_FILE, o.result()]
